@@ -57,8 +57,8 @@ CLAIMS["C03"] = dict(
     note=COMMON_NOTE + " PARTIAL: the accounting of K and V objects that are passed in but not stored (duplicate key of insert on a present key, default of or_insert on an occupied entry) is outside the model's event vocabulary and decided by the harness registry only.",
     technique="machine-checked proof in Coq (event-level ownership accounting) + bit-exact event correspondence + object registry")
 CLAIMS["C04"] = dict(
-    text="Coq theorem (Properties/C04.v): for every operation, every SafeWF state and every hasher that may panic at ANY call (option-valued hasher, arbitrary per step), the model step returns a state satisfying SafeWF and owning its block, whether it completed or unwound (map_step_safe; the shape of the rehash_in_place unwind guard is read from the source: rehash_guard_unconditional); a hasher panic during resize leaves the table EQUAL to the pre-state and frees the new block; during an in-place rehash (element types with and without drop glue) or reserve every element of the pre-state is still present or was dropped exactly once and len() is adjusted; a destructor panic inside clear still empties the table, dropping a prefix once (Clone panics: C11_clone / C11_clone_from); Properties/C04u.v: after an unwound in-place rehash, reserve or try_reserve the FULL invariant WF holds (every remaining element carries the tag of its hash and is reachable by lookup, only successfully re-hashed elements remain, no tombstone is left)." + TIE + " A third to a half of the operations are preceded by a fault arming (k-th Hash / Eq / Drop / Clone / predicate call panics, allocator refuses); after catch_unwind the dump must satisfy the full wf_check, contents must be explainable from pre-state and arguments, registry: no double drop, leaks only after destructor panics. Found and fixed: F1 (rehash guard skipped for no-drop types), F3 (clone_from hasher Clone panic) -- replays kept as corpus.",
-    note=COMMON_NOTE + " PARTIAL: the theorems cover panics of the hasher, of destructors and of Clone; Eq / predicate / extend-iterator panics are decided by the correspondence and wf_check on generated histories, not by a theorem; the lift of the full invariant from reserve to every map operation that reserves is by correspondence.",
+    text="Coq theorem (Properties/C04.v): for every operation, every SafeWF state and every hasher that may panic at ANY call (option-valued hasher, arbitrary per step), the model step returns a state satisfying SafeWF and owning its block, whether it completed or unwound (map_step_safe; the shape of the rehash_in_place unwind guard is read from the source: rehash_guard_unconditional); a hasher panic during resize leaves the table EQUAL to the pre-state and frees the new block; during an in-place rehash (element types with and without drop glue) or reserve every element of the pre-state is still present or was dropped exactly once and len() is adjusted; a destructor panic inside clear still empties the table, dropping a prefix once (Clone panics: C11_clone / C11_clone_from); Properties/C04u.v: after an unwound in-place rehash, reserve or try_reserve the FULL invariant WF holds (every remaining element carries the tag of its hash and is reachable by lookup, only successfully re-hashed elements remain, no tombstone is left), and at OPERATION level for all 45 HashMap/HashSet operations with a partial hasher: whenever an operation unwinds (at the key's hash, inside its reserve / rehash / resize, or part-way through extend) WF and block ownership hold afterwards (map_step_unwind_WF)." + TIE + " A third to a half of the operations are preceded by a fault arming (k-th Hash / Eq / Drop / Clone / predicate call panics, allocator refuses); after catch_unwind the dump must satisfy the full wf_check, contents must be explainable from pre-state and arguments, registry: no double drop, leaks only after destructor panics. Found and fixed: F1 (rehash guard skipped for no-drop types), F3 (clone_from hasher Clone panic) -- replays kept as corpus.",
+    note=COMMON_NOTE + " PARTIAL: the theorems cover panics of the hasher, of destructors and of Clone; Eq / predicate / extend-iterator panics are decided by the correspondence and wf_check on generated histories, not by a theorem.",
     technique="machine-checked proof in Coq (invariant preserved on unwinding paths) + fault-injection correspondence")
 CLAIMS["C05"] = dict(
     text="Coq theorems (Properties/C05.v): with an ARBITRARY hasher that may answer differently at every call (and panic), every operation of every history keeps SafeWF and block ownership, never reaches a checked-primitive failure, terminates (fuel never exhausted), and len() equals the number of elements iteration yields (run_var_safe, run_len_exact)." + TIE + " Histories with call-dependent Hash and/or Eq implementations (results depend on a call counter); judged for safety: SafeWF, len = iteration count, each stored object yielded once, registry and allocator checks.",
